@@ -2,6 +2,7 @@
 mod c06;
 mod c07;
 mod c09;
+mod c14;
 mod clock;
 mod disk;
 mod engine;
@@ -73,6 +74,14 @@ fn plan(prop: &str, tier: &str, seed: u64) -> Plan {
             assumptions: vec!["refdec::coherent is the independent coherence predicate (64-bit arithmetic, FAT specification)".into(), "exhaustive=true refers to every value of every 8- and 16-bit BPB field alone on three base volumes; 32-bit fields and combinations are sampled".into()],
             extra: serde_json::json!({}),
         },
+        "C14" => Plan {
+            batches: c14::batches(tier, seed),
+            level: "fault_enumeration",
+            rule: "one evaluation = one crash image (lost_suffix fault): initial image + all device writes made durable by a flush barrier + a subset of the un-barriered writes up to the crash point, remounted and the flushed file read back; crash points = every device-write boundary after each flush point (sampled above 48 in the first batch, all in the second); distinct = distinct (crash image, file) pairs".into(),
+            exhaustive: false,
+            assumptions: vec!["crash model: write-call granularity, cache honours flush (no torn single write)".into(), "a file stops being tracked when it or an ancestor is modified, renamed or removed".into()],
+            extra: serde_json::json!({}),
+        },
         "C09" => Plan {
             batches: c09::batches(tier, seed),
             level: "fault_enumeration",
@@ -133,7 +142,7 @@ fn main() {
                 println!("  {:3} c{} {:?}{}", i, s.c, s.op, s.hard_at.map_or(String::new(), |k| format!(" !hard@{}", k)));
             }
             if rep.kind != "engine" {
-                let out = c06::replay(&rep.kind, rep.seed).or_else(|| c07::replay(&rep.kind, rep.seed));
+                let out = c06::replay(&rep.kind, rep.seed).or_else(|| c07::replay(&rep.kind, rep.seed)).or_else(|| c14::replay(&rep.kind, rep.seed));
                 match out {
                     Some(o) => match o.violation {
                         Some((v, _)) => {
